@@ -161,7 +161,7 @@ func c20Run(c c20Case) (reached string, bad string) {
 	case "chart":
 		var files []*loader.BufferedFile
 		for _, k := range c20Keys(c.In) {
-			if k == "user-values" {
+			if k == "user-values" || strings.HasPrefix(k, "@link/") {
 				continue
 			}
 			files = append(files, &loader.BufferedFile{Name: k, Data: c.get(k)})
@@ -204,11 +204,18 @@ func c20Run(c c20Case) (reached string, bad string) {
 			if strings.Contains(k, "..") {
 				continue
 			}
+			if strings.HasPrefix(k, "@link/") {
+				p := filepath.Join(dir, "chart", strings.TrimPrefix(k, "@link/"))
+				_ = os.MkdirAll(filepath.Dir(p), 0o755)
+				_ = os.Symlink(strings.ReplaceAll(string(c.get(k)), "$CHART", filepath.Join(dir, "chart")), p)
+				continue
+			}
 			p := filepath.Join(dir, "chart", k)
 			_ = os.MkdirAll(filepath.Dir(p), 0o755)
 			_ = os.WriteFile(p, c.get(k), 0o644)
 		}
 		l := lint.RunAll(filepath.Join(dir, "chart"), map[string]interface{}{}, "default")
+		_, _ = loader.LoadDir(filepath.Join(dir, "chart"))
 		return fmt.Sprintf("lint-messages:%d", min(len(l.Messages), 3)), ""
 	case "strvals":
 		s := string(c.get("line"))
@@ -608,6 +615,20 @@ func c20GenChart(t *rapid.T, target string) c20Case {
 	if rapid.IntRange(0, 3).Draw(t, "helmignore") == 0 {
 		c20Put(in, ".helmignore", c20MutateBytes(t, []byte("*.bak\n!keep.bak\n/dir/\n"), "ign"))
 	}
+	// a chart directory may hold a symbolic link that leads back into itself (written by the lint target only): the
+	// walk ends with an error when the path has too many links or (below a directory with a long name) gets too long
+	if rapid.IntRange(0, 4).Draw(t, "linkBackIntoTheChart") == 0 {
+		at := rapid.SampledFrom([]string{"loop", "templates/again", "dir/up", "files/" + strings.Repeat("d", 120) + "/up", "files/" + strings.Repeat("d", 120) + "/up"}).Draw(t, "linkAt")
+		to := rapid.SampledFrom([]string{".", "..", "../chart", "$CHART", "$CHART"}).Draw(t, "linkTo")
+		if strings.HasPrefix(at, "files/") {
+			to = "$CHART"
+		}
+		c20Put(in, "@link/"+at, []byte(to))
+		if _, has := in[".helmignore"]; !has && rapid.Bool().Draw(t, "defaultHelmignore") {
+			// (what `helm create` writes starts with directory rules)
+			c20Put(in, ".helmignore", []byte(".DS_Store\n.git/\n.svn/\n*.tmp\n"))
+		}
+	}
 	// the other metadata files a chart may carry (legacy requirements files, lock files), well-formed, empty or null
 	for _, name := range []string{"requirements.yaml", "requirements.lock", "Chart.lock"} {
 		if rapid.IntRange(0, 4).Draw(t, "has-"+name) == 0 {
@@ -761,7 +782,7 @@ func c20Prop(t *rapid.T) {
 
 func TestC20(t *testing.T) {
 	debug.SetMaxStack(256 << 20) // unbounded recursion dies fast instead of eating the machine
-	evid.Extra("rule", "C20: valid seed inputs (chart file maps with Chart.yaml / dependencies incl. import-values (also with parent paths leading back into the imported table) / values / schema / templates / subchart, --set lines (seeds, hostile constants, and a grammar of several assignments whose paths disagree about scalar / list / table / list in a list), values files, repository indexes, manifest streams, stored Secret and ConfigMap release records next to good ones and as the only record of a release, provenance + keyring files, .helmignore, plugin.yaml, schema + values) receive structure-aware mutations (a node replaced by null / a wrong type / a 50-400 level nest / a 20 KB string / a hostile constant, null list entries, self references) and byte-level mutations (truncate, bit flip, hostile insert, doubling), then go through the public entry points: LoadFiles -> ProcessDependencies -> ToRenderValuesWithSchemaValidation -> Render -> SortManifests; lint.RunAll on a written directory; every strvals parser; ReadValues/LoadValues; LoadIndexFile + Get/Has/Merge/Sort/Write; SplitManifests/SortManifests; storage Get/List/History/Last/Deployed/Query/Delete; NewFromKeyring/Verify/DigestFile; ignore.Parse/Ignore; plugin.LoadDir/LoadAll/FindPlugins/PrepareCommand; ValidateAgainstSingleSchema. Oracle: no panic escapes (recover guard; root cause = first Helm frame), no result after 30 s is a hang, a dead process (stack exhaustion) is attributed to the case recorded before it started, and List/History over stored records still return every readable record. Non-trivial = the input passed the first parser of its target (deeper code ran); distinct by the inputs.")
+	evid.Extra("rule", "C20: valid seed inputs (chart file maps with Chart.yaml / dependencies incl. import-values (also with parent paths leading back into the imported table) / values / schema / templates / subchart, --set lines (seeds, hostile constants, and a grammar of several assignments whose paths disagree about scalar / list / table / list in a list), values files, repository indexes, manifest streams, stored Secret and ConfigMap release records next to good ones and as the only record of a release, provenance + keyring files, .helmignore, plugin.yaml, schema + values) receive structure-aware mutations (a node replaced by null / a wrong type / a 50-400 level nest / a 20 KB string / a hostile constant, null list entries, self references) and byte-level mutations (truncate, bit flip, hostile insert, doubling), then go through the public entry points: LoadFiles -> ProcessDependencies -> ToRenderValuesWithSchemaValidation -> Render -> SortManifests; lint.RunAll and LoadDir on a written directory (one in eight holding a symbolic link that leads back into the chart); every strvals parser; ReadValues/LoadValues; LoadIndexFile + Get/Has/Merge/Sort/Write; SplitManifests/SortManifests; storage Get/List/History/Last/Deployed/Query/Delete; NewFromKeyring/Verify/DigestFile; ignore.Parse/Ignore; plugin.LoadDir/LoadAll/FindPlugins/PrepareCommand; ValidateAgainstSingleSchema. Oracle: no panic escapes (recover guard; root cause = first Helm frame), no result after 30 s is a hang, a dead process (stack exhaustion) is attributed to the case recorded before it started, and List/History over stored records still return every readable record. Non-trivial = the input passed the first parser of its target (deeper code ran); distinct by the inputs.")
 	evid.Extra("assumptions", []string{"inputs are bounded (<= ~100 KB); the 30 s watchdog is far above any observed run time", "OCI, SQL storage and plugin execution are not exercised"})
 	rapid.Check(t, c20Prop)
 }
